@@ -513,7 +513,7 @@ def run(ctx):
                 bad_rows = bad_rows[:pos] + filler + bad_rows[pos:]
                 line += len(filler)
             check_reject(ctx, name, bad_rows, line)
-            if name.startswith("example-rejected-by-own-field"):
+            if name.startswith("example-rejected-by-own-field") or name == "field-after-check":
                 # ... and when the rows are added one by one through the API, where the example is judged at once
                 ctx.count("reject.through-the-api")
                 from cutplace import errors
@@ -521,7 +521,7 @@ def run(ctx):
                 try:
                     load_through_api(bad_rows)
                     ctx.violation("C09:defective-cid-accepted:%s:through-the-api" % name, {"cid_rows": bad_rows, "expect": "refused at row %s" % line, "defect": name + ":through-the-api"},
-                                  "an example its own field does not accept was taken when the rows were added one by one", expected="InterfaceError", observed="accepted")
+                                  "a defect that Cid.read refuses (%s) was taken when the rows were added one by one" % name, expected="InterfaceError", observed="accepted")
                 except errors.InterfaceError:
                     pass
                 except Exception as error:
